@@ -376,6 +376,10 @@ class Run:
             b = z3.BoolVal(b)
         if z3.is_true(b):
             return
+        q = getattr(self, "qctx", None)
+        if q is not None:
+            b = z3.ForAll([q[0]], z3.Implies(q[1], b))
+            self._q_pending.append(b)
         self.pc.append(b)
         self.solver.add(b)
         if not has_quantifier(b):
@@ -435,6 +439,17 @@ class Run:
         if z3.is_true(goal):
             self.v.trivial += 1
             self.v.obl_names.add(name)
+            return
+        q = getattr(self, "qctx", None)
+        if q is not None:
+            goal = z3.ForAll([q[0]], z3.Implies(q[1], goal))
+            key = (name, site, tuple(self.taken))
+            if key not in self.v.obligations:
+                self.v.obligations[key] = Obligation(self.v.qname, name, site, self.pc, goal, key, kind)
+            self.qctx = None
+            self.assume(goal)
+            self._q_pending.append(goal)
+            self.qctx = q
             return
         key = (name, site, tuple(self.taken))
         if key not in self.v.obligations:
@@ -735,21 +750,45 @@ class Run:
             raise Reject("comprehension with filter / several generators")
         g = n.generators[0]
         it = self.ev(g.iter)
+        return self.comprehend(it, lambda x: self.assign(g.target, x), lambda: self.ev(n.elt))
+
+    ev_GeneratorExp = ev_ListComp
+
+    def ev_Lambda(self, n):
+        return LambdaVal(n, dict(self.frames[-1].env), self)
+
+    def comprehend(self, it, bind, elt_eval):
+        """shared by comprehensions and map(lambda ...): pointwise-defined fresh list"""
         cnt, elem, cont = self.iter_desc(it)
         i = z3.Int(H.fresh_name("lc_i"))
         fr = self.frames[-1]
         saved = dict(fr.env)
         x = elem(i)
-        if isinstance(x, SV):
-            for f in self.type_facts(x):
-                self.assume(z3.Implies(z3.And(0 <= i, i < cnt), f))
-        self.assign(g.target, x)
+        rng = z3.And(0 <= i, i < cnt)
+        if getattr(self, "qctx", None) is not None:
+            raise Reject("nested comprehension")
+        self.qctx = (i, rng)
+        self._q_pending = []
+        self.solver.push()
+        self.solver_qf.push()
+        self.solver.add(rng)
+        self.solver_qf.add(rng)
         old = getattr(self, "no_fork", False)
         self.no_fork = True
         try:
-            v = self.ev(n.elt)
+            if isinstance(x, SV):
+                for f in self.type_facts(x):
+                    self.assume(f)
+            bind(x)
+            v = elt_eval()
         finally:
             self.no_fork = old
+            self.qctx = None
+            self.solver.pop()
+            self.solver_qf.pop()
+            for b_ in self._q_pending:
+                self.solver.add(b_)
+            self._q_pending = []
             fr.env.clear()
             fr.env.update(saved)
         if not isinstance(v, SV):
@@ -762,8 +801,6 @@ class Run:
         self.assume(z3.ForAll([i], z3.Implies(z3.And(0 <= i, i < cnt), z3.Select(arr, i) == v.z), patterns=[z3.Select(arr, i)]))
         self.heap._upd(t, "elem", out.z, arr)
         return out
-
-    ev_GeneratorExp = ev_ListComp
 
     def ev_IfExp(self, n):
         c = self.truthy(self.ev(n.test))
@@ -1315,6 +1352,17 @@ class Run:
                     else:
                         cur = nxt if self.choose(c) else cur
             return cur
+        if name == "map":
+            f, seq = args
+            if not isinstance(f, LambdaVal) or len(f.node.args.args) != 1:
+                raise Reject("map with non-lambda")
+            pname = f.node.args.args[0].arg
+            fr = self.frames[-1]
+
+            def bind(x):
+                fr.env[pname] = x
+
+            return self.comprehend(seq, bind, lambda: self.ev(f.node.body))
         if name in ("any", "all"):
             (v,) = args
             if isinstance(v, PyTuple):
@@ -1744,10 +1792,19 @@ class Run:
             post.set(name, new)
             self.note_written([name])
         res = None
+        q = getattr(self, "qctx", None)
+        if q is not None and mods:
+            raise Reject("call with side effects inside a comprehension")
+
+        def fresh_res(prefix, sort_):
+            if q is None:
+                return H.fresh(prefix, sort_)
+            return z3.Function(H.fresh_name(prefix), H.I, sort_)(q[0])
+
         if ctor is not None:
-            res = SV(ctor.ty, H.fresh("new_" + ctor.short, T.sort(ctor.ty)))
+            res = SV(ctor.ty, fresh_res("new_" + ctor.short, T.sort(ctor.ty)))
         elif c.ret is not None and c.ret != T.NONE:
-            res = SV(c.ret, H.fresh("ret_" + qname.split(".")[-1], T.sort(c.ret)))
+            res = SV(c.ret, fresh_res("ret_" + qname.split(".")[-1], T.sort(c.ret)))
         # fresh objects the callee may have allocated: bump allocation counter by an unknown amount
         if getattr(c, "allocates", False) or (c.ret is not None and T.is_reflike(c.ret)):
             bump = z3.Int(H.fresh_name("bump"))
@@ -1860,6 +1917,11 @@ class Run:
     def assign(self, target, v):
         fr = self.frames[-1]
         if isinstance(target, ast.Name):
+            if isinstance(v, (EmptyContainer, PyTuple)):
+                c_ = CONTRACTS.get(fr.qname)
+                lt = getattr(c_, "locals", None) if c_ is not None else None
+                if lt and target.id in lt:
+                    v = self.coerce(v, lt[target.id])
             fr.env[target.id] = v
             return
         if isinstance(target, (ast.Tuple, ast.List)):
